@@ -79,6 +79,32 @@ def main():
         return re.sub(r"[0-9]+", "N", v)[:200]
     c.correspond(hb, "c01-rows", rows=rows, reconcile=reconcile, classify=classify,
                  nontrivial=lambda r: r[0].startswith("godec ") and r[0].count("(") >= 6)
+    # how much of the sampled reality the theorem's hypothesis `den` covers, and a consistency
+    # obligation: a document in `den` must round-trip on the REAL code (theorem + correspondence)
+    drows = [r for r in rows if r[0].startswith("godec ")]
+    store = [r[0] for r in rows if r[0].startswith("defschemas ")]
+    reqs, idx = [], []
+    last_store = None
+    for r in rows:
+        if r[0].startswith("defschemas "):
+            reqs.append(r[0]); idx.append(None)
+        elif r[0].startswith("godec "):
+            reqs.append("goden " + r[0][len("godec "):]); idx.append(r)
+    replies = drv(reqs)
+    in_den = ok_in_den = contradict = 0
+    for rep, r in zip(replies, idx):
+        if r is None or rep != "true":
+            continue
+        in_den += 1
+        if not r[2].startswith("FAIL reenc-differs") and not r[2].startswith("FAIL dec-error"):
+            ok_in_den += 1
+        else:
+            contradict += 1
+            if contradict <= 3:
+                c.violation({"kind": "theorem-contradicted", "broken": "C01_codec_roundtrip_partial hypothesis `den` holds but the real generated code does not round-trip",
+                             "request": r[0], "impl": r[1], "oracle": r[2]})
+    c.oblige("every sampled document in `den` round-trips on the real generated code (%d documents)" % in_den, contradict == 0)
+    c.cov["den"] = {"documents": len(drows), "in_den": in_den, "in_den_and_roundtrip_on_real_code": ok_in_den}
     c.cov["skipped_cases"] = skips
     c.cov["model"] = STATS
     c.cov["lab"] = [r[1] for r in rows if r[0] == "-" and r[1].startswith("stats")][:1]
